@@ -63,25 +63,47 @@ def at3 (nint nr nc i r c : Int) : List SAcc := [⟨i, nint⟩, ⟨r, nr⟩, ⟨
 
 /-! ## `sum_rect`, `csum_rect`, `haar_x`, `haar_y` -/
 
-/-- `sum_rect(integral, y0, x0, y1, x1)`:
-    `y0 = max(y0-1, 0); x0 = max(x0-1, 0); y1 = min(y1-1, N0-1); x1 = min(x1-1, N1-1);`
-    then `A = at(y0,x0); B = at(y0,x1); C = at(y1,x0); D = at(y1,x1)`. NOTE the clamps are one-sided. -/
+/-- `sum_rect(integral, y0, x0, y1, x1)` as repaired by 6faa5ae:
+    `if (N0 <= 0 || N1 <= 0) return 0.;` then ALL FOUR corners are clamped into the image,
+    `y0 = min(max(y0-1, 0), N0-1); x0 = min(max(x0-1, 0), N1-1); y1 = min(max(y1-1, 0), N0-1); x1 = min(max(x1-1, 0), N1-1);`
+    then `A = at(y0,x0); B = at(y0,x1); C = at(y1,x0); D = at(y1,x1)`. -/
 def sumRectAccesses (n0 n1 y0 x0 y1 x1 : Int) : List SAcc :=
+  if n0 ≤ 0 ∨ n1 ≤ 0 then [] else
+  let a := min (max (y0 - 1) 0) (n0 - 1)
+  let b := min (max (x0 - 1) 0) (n1 - 1)
+  let c := min (max (y1 - 1) 0) (n0 - 1)
+  let d := min (max (x1 - 1) 0) (n1 - 1)
+  at2 n0 n1 a b ++ at2 n0 n1 a d ++ at2 n0 n1 c b ++ at2 n0 n1 c d
+
+/-- the clamps of the PINNED tree (before 6faa5ae), kept only to state what was wrong with them: one-sided,
+    `y0 = max(y0-1, 0); x0 = max(x0-1, 0); y1 = min(y1-1, N0-1); x1 = min(x1-1, N1-1);` and no test for an empty image.
+    Not reachable from the driver; the current code is `sumRectAccesses`. -/
+def sumRectPinnedAccesses (n0 n1 y0 x0 y1 x1 : Int) : List SAcc :=
   let a := max (y0 - 1) 0
   let b := max (x0 - 1) 0
   let c := min (y1 - 1) (n0 - 1)
   let d := min (x1 - 1) (n1 - 1)
   at2 n0 n1 a b ++ at2 n0 n1 a d ++ at2 n0 n1 c b ++ at2 n0 n1 c d
 
+/-- `haar_x` followed by `haar_y` over the PINNED `sum_rect` (see `sumRectPinnedAccesses`) -/
+def haarPinnedAccesses (n0 n1 y x w : Int) : List SAcc :=
+  let h := Int.tdiv w 2
+  sumRectPinnedAccesses n0 n1 (y - h) (x - h) ((y - h) + w) x ++
+  sumRectPinnedAccesses n0 n1 (y - h) x ((y - h) + w) ((x - h) + w) ++
+  sumRectPinnedAccesses n0 n1 (y - h) (x - h) y ((x - h) + w) ++
+  sumRectPinnedAccesses n0 n1 y (x - h) ((y - h) + w) ((x - h) + w)
+
 /-- 32-bit two's complement wrap (what `int` arithmetic does under `-fno-strict-overflow`) -/
 def wrap32 (v : Int) : Int := (v + 2147483648) % 4294967296 - 2147483648
 
-/-- `sum_rect` as reached through the entry point `py_sum_rect` (four arbitrary C `int`s): the decrement wraps at `INT_MIN`. -/
+/-- `sum_rect` as reached through the entry point `py_sum_rect` (four arbitrary C `int`s): the decrement wraps at `INT_MIN`
+    (to `INT_MAX`, which the upper clamp then maps to the last row/column). -/
 def sumRectEntry (n0 n1 y0 x0 y1 x1 : Int) : List SAcc :=
-  let a := max (wrap32 (y0 - 1)) 0
-  let b := max (wrap32 (x0 - 1)) 0
-  let c := min (wrap32 (y1 - 1)) (n0 - 1)
-  let d := min (wrap32 (x1 - 1)) (n1 - 1)
+  if n0 ≤ 0 ∨ n1 ≤ 0 then [] else
+  let a := min (max (wrap32 (y0 - 1)) 0) (n0 - 1)
+  let b := min (max (wrap32 (x0 - 1)) 0) (n1 - 1)
+  let c := min (max (wrap32 (y1 - 1)) 0) (n0 - 1)
+  let d := min (max (wrap32 (x1 - 1)) 0) (n1 - 1)
   at2 n0 n1 a b ++ at2 n0 n1 a d ++ at2 n0 n1 c b ++ at2 n0 n1 c d
 
 /-- `csum_rect(integral, y, x, dy, dx, h, w)`: `y0 = y + dy - h/2; x0 = x + dx - w/2; y1 = y0 + h; x1 = x0 + w` (C division). -/
